@@ -52,6 +52,22 @@ Theorem c15_complement (W F K : IPS) (Fm : F -> W) (Fmt : W -> F) (Km : K -> W) 
 Proof. exact (complement_complete W F K Fm Fmt Km Kmt M). Qed.
 Print Assumptions c15_complement.
 
+(** Trace and rank: with the spectrum in [0,1] the number of unit eigenvalues is at most the trace, with equality exactly for projectors;
+    a block can have trace 1 and no unit eigenvalue, so round(trace) bounds the dimension of the unit eigenspace but does not give it
+    (the eigen-solvers use it only as a bound / early exit for trace 0; the selection itself is by eigenvalue). *)
+From Coq Require Import List.
+From SymfcV Require Import TraceRank.
+Theorem c15_unit_count_le_trace l : Forall (fun x => 0 <= x <= 1) l -> INR (count1 l) <= tsum l.
+Proof. exact (unit_count_le_trace l). Qed.
+Print Assumptions c15_unit_count_le_trace.
+Theorem c15_unit_count_eq_trace_iff_projector l :
+  Forall (fun x => 0 <= x <= 1) l -> (INR (count1 l) = tsum l <-> Forall (fun x => x = 0 \/ x = 1) l).
+Proof. exact (unit_count_eq_trace_iff_projector l). Qed.
+Print Assumptions c15_unit_count_eq_trace_iff_projector.
+Theorem c15_unit_trace_without_unit_eigenvalue :
+  Forall (fun x => 0 <= x <= 1) (3 / 4 :: 1 / 4 :: nil) /\ tsum (3 / 4 :: 1 / 4 :: nil) = 1 /\ count1 (3 / 4 :: 1 / 4 :: nil) = O.
+Proof. exact unit_trace_without_unit_eigenvalue. Qed.
+
 (** Auxiliary code on this property's path is the recorded source (the CSR block container DataCSR and the block extraction of the eigen-solvers):
     whole-function match, regenerated on every run. *)
 From SymfcG Require Import ShapesAuxEig.
